@@ -9,6 +9,7 @@ import (
 	"strings"
 	"time"
 
+	"github.com/ProtonMail/gluon"
 	"github.com/ProtonMail/gluon/imap"
 	"github.com/ProtonMail/gluon/verifhook"
 
@@ -22,10 +23,15 @@ func main() { common.Main("C04", runC04) }
 // canonical rendering of the recorded defect D11 (UIDVALIDITY generator state lives in memory only)
 const canonD11 = "uidvalidity-not-greater after-restart previous-value-ahead-of-clock"
 
+// canonical rendering of the proposed finding: RENAME keeps the UIDVALIDITY of the renamed mailbox also when the new name
+// was used before by a mailbox with a greater (or the same) value
+const canonRename = "uidvalidity-not-greater name-taken-over-by-RENAME keeps-the-renamed-mailbox's-value"
+
 type violation struct {
 	Kind   string
 	Detail string
 	D11    bool
+	Ren    bool
 }
 
 type oracle struct {
@@ -60,6 +66,9 @@ func (o *oracle) observe(op mstore.Op, ob mstore.Obs, before, after mstore.Dump,
 				v := violation{Kind: "uidvalidity-not-greater", Detail: fmt.Sprintf("mailbox %q: new UIDVALIDITY %d, earlier value %d", m.Name, m.UIDV, mx)}
 				if o.genAt[m.Name] < o.restarts && mx >= clockBefore {
 					v.D11 = true
+				}
+				if op.Kind == "rename" && op.Name != "INBOX" && ob.Class == "ok" && (m.Name == op.Name2 || strings.HasPrefix(m.Name, op.Name2+"/")) {
+					v.Ren = true // the mailbox came to this name by RENAME and kept its value
 				}
 				vs = append(vs, v)
 			}
@@ -239,6 +248,12 @@ func genOp(rng *common.Rng, d mstore.Dump, lits *mstore.Literals, nlits int, all
 			return mstore.Op{Kind: "create", Name: pick(pool[:4]), RemoteOK: !rng.Chance(0.08), Sess: rng.Pick(2)}
 		case x < 75:
 			// RENAME INBOX: a new mailbox under a (possibly previously used) name takes over the messages of INBOX
+			if rng.Chance(0.35) {
+				n := pick(existing)
+				if n != "INBOX" {
+					return mstore.Op{Kind: "rename", Name: n, Name2: pick(pool[:4]), RemoteOK: true, Sess: rng.Pick(2)}
+				}
+			}
 			return mstore.Op{Kind: "rename", Name: "INBOX", Name2: pick(pool[:4]), RemoteOK: true, Sess: rng.Pick(2)}
 		case x < 84:
 			n := pick(existing)
@@ -338,9 +353,13 @@ func runC04(ctx *common.Ctx) error {
 			res.Fail(canonD11, v.Detail+" | history: "+mstore.OpsString(cs.Ops), cs)
 			return
 		}
+		if v.Ren {
+			res.Fail(canonRename, v.Detail+" | history: "+mstore.OpsString(cs.Ops), cs)
+			return
+		}
 		ops := mstore.Shrink(cs.Ops, 30, func(c []mstore.Op) bool {
 			v2, err := runOps(burn, step, c, nlits)
-			return err == nil && v2 != nil && v2.Kind == v.Kind && !v2.D11
+			return err == nil && v2 != nil && v2.Kind == v.Kind && !v2.D11 && !v2.Ren
 		})
 		canon := v.Kind + " [" + mstore.OpsString(ops) + "]"
 		cs.Canon = canon
@@ -443,6 +462,11 @@ func runC04(ctx *common.Ctx) error {
 		ok("delete", "a"), ok("create", "a"), app("a", 5), ok("delete", "a"), app("INBOX", 0), renInbox("a/x"), ok("delete", "a/x"), renInbox("a/x")}); err != nil {
 		return err
 	}
+	// RENAME of another mailbox onto a name that was used before (the renamed mailbox keeps its older value: finding)
+	if err := fixed("rename-onto-used-name", []mstore.Op{ok("create", "a"), ok("create", "b"), app("b", 0), ok("delete", "b"),
+		{Kind: "rename", Name: "a", Name2: "b", RemoteOK: true}, app("b", 1)}); err != nil {
+		return err
+	}
 	// sequence sets written in descending / mixed order: COPYUID must still pair source and destination UIDs
 	if err := fixed("copyuid-unordered-set", []mstore.Op{ok("create", "a"), ok("create", "b"), app("a", 0), app("a", 1), app("a", 2), app("a", 3),
 		{Kind: "copy", Name: "a", UIDs: []int{3, 1}, Name2: "b", CreateOK: true, LabelOK: true},
@@ -536,16 +560,25 @@ func runC04(ctx *common.Ctx) error {
 	}
 
 	// ---- 1c. announced UIDs must be found by the LIVE sessions (oracle only: the model has no session views) ----
-	nlive := ctx.Budget(10, 80)
+	nlive := ctx.Budget(12, 90)
 	for ci := 0; ci < nlive; ci++ {
 		id++
 		sc := liveScenario{Pre: rng.Range(0, 2), Foreign: []string{"connector", "append-unselected", "copy-unselected"}[rng.Pick(3)],
 			Hold: ci%3 != 2, Observer: rng.Chance(0.6), Own: rng.Range(1, 2), ForeignN: rng.Range(1, 2)}
+		if rng.Chance(0.4) {
+			sc.Same = []string{"move", "copy"}[rng.Pick(2)]
+		}
 		if ci == 0 {
 			sc = liveScenario{Pre: 1, Foreign: "append-unselected", Hold: true, Observer: false, Own: 1, ForeignN: 1}
 		}
 		if ci == 1 {
 			sc = liveScenario{Pre: 0, Foreign: "connector", Hold: true, Observer: true, Own: 1, ForeignN: 2}
+		}
+		if ci == 2 {
+			sc = liveScenario{Pre: 2, Foreign: "connector", Hold: false, Observer: true, Own: 1, ForeignN: 1, Same: "move"}
+		}
+		if ci == 3 {
+			sc = liveScenario{Pre: 2, Foreign: "append-unselected", Hold: false, Observer: true, Own: 1, ForeignN: 1, Same: "copy"}
 		}
 		cs := &c04Case{ID: id}
 		ctx.Current("live "+sc.String(), cs)
@@ -558,6 +591,24 @@ func runC04(ctx *common.Ctx) error {
 		res.Nontrivial("live " + sc.String())
 		if detail != "" {
 			res.Fail("announced-uid-not-found-in-live-session ["+sc.String()+"]", detail, sc)
+		}
+	}
+
+	// ---- 1d. a name created, deleted and re-created by two writers at once (gated database client; oracle only) ----
+	for _, who := range []string{"client", "connector"} {
+		id++
+		cs := &c04Case{ID: id}
+		canon := "uidvalidity-not-greater [" + who + " CREATE a parked before its write transaction; other session: CREATE a, DELETE a; the parked CREATE resumes]"
+		ctx.Current(canon, cs)
+		detail, err := createRace(who, nlits)
+		if err != nil {
+			return fmt.Errorf("create race (%s): %w", who, err)
+		}
+		res.Evaluations++
+		res.Count("create-race:" + who)
+		res.Nontrivial("create-race " + who)
+		if detail != "" {
+			res.Fail(canon, detail, cs)
 		}
 	}
 
@@ -702,10 +753,16 @@ type liveScenario struct {
 	Own      int    `json:"own"`
 	Hold     bool   `json:"hold"`
 	Observer bool   `json:"observer"`
+	// Same: after the appends S sends UID MOVE / UID COPY of some of m's messages onto m itself (they get new UIDs)
+	Same string `json:"same,omitempty"`
 }
 
 func (sc liveScenario) String() string {
-	return fmt.Sprintf("pre=%d; S selects m; hold=%v; %s adds %d; S appends %d; release; observer=%v", sc.Pre, sc.Hold, sc.Foreign, sc.ForeignN, sc.Own, sc.Observer)
+	same := ""
+	if sc.Same != "" {
+		same = "; S sends UID " + strings.ToUpper(sc.Same) + " of messages of m onto m"
+	}
+	return fmt.Sprintf("pre=%d; S selects m; hold=%v; %s adds %d; S appends %d%s; release; observer=%v", sc.Pre, sc.Hold, sc.Foreign, sc.ForeignN, sc.Own, same, sc.Observer)
 }
 
 func runLive(sc liveScenario, nlits int) (string, error) {
@@ -804,6 +861,29 @@ func runLive(sc liveScenario, nlits int) (string, error) {
 		fmt.Sscanf(afterTag(r.Text, "APPENDUID"), "%d %d", &v, &u)
 		announced[u] = i % 2
 	}
+	// S moves / copies messages of m onto m itself: the destination UIDs of COPYUID replace the old ones
+	if sc.Same != "" {
+		set := "1"
+		if len(announced) >= 2 || sc.Pre >= 2 {
+			set = "2,1"
+		}
+		r, err := S.Cmd("UID " + strings.ToUpper(sc.Same) + " " + set + " m")
+		if err != nil || r.Status != "OK" {
+			return "", fmt.Errorf("same-mailbox %s: %v %s", sc.Same, err, r.Text)
+		}
+		pairs, _, lens := mstore.CopyPairs(r)
+		if lens[0] != lens[1] {
+			return fmt.Sprintf("UID %s %s m: COPYUID sets differ in length (%s %v)", sc.Same, set, r.Text, r.Untagged), nil
+		}
+		for _, p := range pairs {
+			if l, ok := announced[p[0]]; ok {
+				announced[p[1]] = l
+				delete(announced, p[0])
+			} else {
+				announced[p[1]] = -9 // a pre-existing message: literal checked through the fresh view
+			}
+		}
+	}
 	// deliver what was held back
 	if sc.Hold {
 		verifhook.SetHold(nil)
@@ -830,7 +910,7 @@ func runLive(sc liveScenario, nlits int) (string, error) {
 		want[r.UID] = r.Lit
 	}
 	for u, l := range announced {
-		if got, ok := want[u]; !ok || got != l {
+		if got, ok := want[u]; !ok || (l != -9 && got != l) {
 			return fmt.Sprintf("fresh view: announced UID %d (literal %d) not found (have %v)", u, l, want), nil
 		}
 	}
@@ -900,4 +980,87 @@ func afterTag(text, tag string) string {
 		return ""
 	}
 	return strings.TrimRight(text[i+len(tag)+1:], "] ")
+}
+
+// createRace: writer A (a client session or the connector) creates mailbox "a" and is parked just before its write
+// transaction; session B creates "a", and deletes it again; A resumes and creates "a". The name has been deleted and
+// re-created: its UIDVALIDITY must be greater than the one B's mailbox had.
+func createRace(who string, nlits int) (string, error) {
+	gate := &mstore.Gate{}
+	lits := newLits(nlits)
+	w, err := mstore.NewWorld(mstore.Config{Burn: 20, DB: mstore.GateIface{Inner: gluon.VerifSQLiteClientInterface(), G: gate}}, lits)
+	if err != nil {
+		return "", err
+	}
+	defer w.Close()
+	uidv := func() (int, error) {
+		d, err := w.DumpAll()
+		if err != nil {
+			return 0, err
+		}
+		if m := d.Get("a"); m != nil {
+			return m.UIDV, nil
+		}
+		return 0, nil
+	}
+	gate.Arm("write")
+	done := make(chan error, 1)
+	go func() {
+		if who == "client" {
+			r, err := w.Sess[0].Cmd("CREATE a")
+			if err == nil && r.Status != "OK" {
+				err = fmt.Errorf("parked CREATE answered %s %s", r.Status, r.Text)
+			}
+			done <- err
+		} else {
+			ob, err := w.Do(mstore.Op{Kind: "conncreate", Name: "a"})
+			if err == nil && ob.Class != "ok" {
+				err = fmt.Errorf("parked connector creation answered %s %s", ob.Class, ob.Text)
+			}
+			done <- err
+		}
+	}()
+	select {
+	case <-gate.Parked():
+	case err := <-done:
+		return "", fmt.Errorf("the first creation completed without reaching a write transaction: %v", err)
+	case <-time.After(60 * time.Second):
+		gate.Release()
+		return "", fmt.Errorf("the first creation neither parked nor completed")
+	}
+	gate.Disarm()
+	B := w.Sess[1]
+	if r, err := B.Cmd("CREATE a"); err != nil || r.Status != "OK" {
+		gate.Release()
+		<-done
+		return "", fmt.Errorf("second CREATE: %v %s", err, r.Text)
+	}
+	v2, err := uidv()
+	if err != nil {
+		gate.Release()
+		<-done
+		return "", err
+	}
+	if r, err := B.Cmd("DELETE a"); err != nil || r.Status != "OK" {
+		gate.Release()
+		<-done
+		return "", fmt.Errorf("DELETE: %v %s", err, r.Text)
+	}
+	gate.Release()
+	select {
+	case err := <-done:
+		if err != nil {
+			return "", err
+		}
+	case <-time.After(60 * time.Second):
+		return "", fmt.Errorf("the parked creation did not complete")
+	}
+	v1, err := uidv()
+	if err != nil {
+		return "", err
+	}
+	if v1 <= v2 {
+		return fmt.Sprintf("mailbox \"a\" had UIDVALIDITY %d, was deleted, and the re-created \"a\" has %d", v2, v1), nil
+	}
+	return "", nil
 }
